@@ -6,7 +6,9 @@ From DC Require Import Tree.LineTree Select.SelectExplainModel.
 
 Extraction "selectcount_ex.ml"
   explain_select_query
-  explain_select_with_union_query_format
+  explain_select_with_union_query
+  explain_select_with_union_query_tail
   explain_select_with_union_query_with_inherited_with
+  explain_insert_select explain_explain_select explain_as_select_without_format
   explain_select_intersect_except_query
   header_count direct_children print_lines parse_lines.
